@@ -99,7 +99,10 @@ def _gen():
     _has(b, r"ctx\.recv_message_seq\s*=\s*ctx\.recv_message_seq\.wrapping_add\(1\)\s*;", "process_handshake_payload wrapping receive counter")
     _has(b, r"recv_message_seq\s*\+=\s*1", "process_handshake_payload unchecked receive counter", 0)
     # fragment reassembly: shape of the buffer handling, and NO capacity request driven by a peer-declared length
-    _has(b, r"if\s+ctx\.incomplete_msg_seq\s*!=\s*msg\.message_seq\s*\|\|\s*msg\.fragment_offset\s*==\s*0\s*\{\s*ctx\.incomplete_handshake\.clear\(\)\s*;\s*ctx\.incomplete_msg_seq\s*=\s*msg\.message_seq\s*;\s*\}\s*ctx\.incomplete_handshake\.extend_from_slice\(&msg\.body\[\.\.\]\)\s*;\s*if\s+ctx\.incomplete_handshake\.len\(\)\s*<\s*msg\.total_length\s+as\s+usize\s*\{", "process_handshake_payload reassembly shape")
+    _has(b, r"if\s+ctx\.incomplete_msg_seq\s*!=\s*msg\.message_seq\s*\|\|\s*msg\.fragment_offset\s*==\s*0\s*\{\s*ctx\.incomplete_handshake\.clear\(\)\s*;\s*ctx\.incomplete_msg_seq\s*=\s*msg\.message_seq\s*;\s*\}"
+            r"\s*if\s+msg\.fragment_offset\s+as\s+usize\s*!=\s*ctx\.incomplete_handshake\.len\(\)\s*\|\|\s*msg\.fragment_offset\s+as\s+u64\s*\+\s*msg\.fragment_length\s+as\s+u64\s*>\s*msg\.total_length\s+as\s+u64\s*\{\s*continue\s*;\s*\}"
+            r"\s*ctx\.incomplete_handshake\.extend_from_slice\(&msg\.body\[\.\.\]\)\s*;\s*if\s+ctx\.incomplete_handshake\.len\(\)\s*<\s*msg\.total_length\s+as\s+usize\s*\{\s*continue",
+         "process_handshake_payload reassembly shape (reset, contiguity + fits-in-total guard, append, completeness test)")
     _has(b, r"if\s+msg\.total_length\s*!=\s*msg\.fragment_length\s*\{", "process_handshake_payload fragment test")
     _has(b, r"\b(reserve|reserve_exact|with_capacity|resize|set_len|try_reserve)\s*\(", "process_handshake_payload: capacity requests", 0)
     b = find_fn(dsrc, "handle_client_hello")[2]
